@@ -165,7 +165,16 @@ static void dump_expr(std::ostream& os, const expression_t& e, int depth = 0)
         break;
     }
     case VAR_INDEX: os << " v:" << e.get_value(); break;
-    case DOT: os << " ." << e.get_index(); break;
+    case DOT: {
+        os << " ." << e.get_index();
+        if (opt_bind) {   // C07: the member a qualified name P.x is bound to, with the type after renaming / substitution
+            type_t bt = e.get_size() > 0 ? e.get(0).get_type() : type_t();
+            std::string label = "?";
+            if (!bt.unknown() && (bt.is_record() || bt.is_process()) && (size_t)e.get_index() < bt.strip().size()) label = bt.strip().get_label(e.get_index());
+            os << ':' << label << ':' << esc(safe_type_str(e.get_type()));
+        }
+        break;
+    }
     case SYNC: os << (e.get_sync() == SYNC_QUE ? " ?" : e.get_sync() == SYNC_BANG ? " !" : " csp"); break;
     default: break;
     }
